@@ -34,7 +34,7 @@ s7 = ["## 7. Validating the checker (both directions)\n",
  f"* **Self-test bank** (`mutants/bank.py`, {nbreak} break variants and {nben} benign variants, listed per property in §4): each entry is a literal rewrite applied to a scratch copy of the working tree under the temp directory (never to `/repo`), checked in a separate process and removed. Last full run: every break variant is reported by the expected rule, every benign variant is silent. The thorough tier of each check re-runs its own entries and records `fired k/n` in the evidence. A rewrite whose source text is no longer present is skipped, so the bank cannot raise an alarm about the tree under test.\n"
  f"* **Behaviour-preserving refactorings written by independent agents** (`benign/<set>/patch_NN.diff`, {len(refs)} patches in {len(sets)} sets: {', '.join(sets)}; each agent was asked for a different family of refactorings — helper extraction, inlining/renaming/moving of existing helpers, control-flow reshaping, performance-style edits, clarity/defensive edits, loop reshaping — had no access to `/verif`, and verified every patch against the unedited suite). The bank applies each patch to a scratch copy and requires *every* check to stay silent; the thorough tier of each property does the same for that property. This is the test of the 'never an alarm on code where the property holds' requirement; what it found and what was changed is listed in §5 (false alarms).\n"
  "* **Renaming robustness**: all unexported fields of the dense stores, both sketches and the paginated store (and its `sortBuffer`/`compact`) were renamed in a scratch copy: all checks silent.\n"
- "* **Independently seeded changes** (`/verif/seeded/<id>/`, nine rounds A/B, C/D, E/F, G/H, I/J, K/L, M/N, O/P and Q/R plus a short tenth round S with a 12-minute limit per agent — from the second round on the agents were told which ideas had been used already for their property, so later rounds reach for less obvious places: sibling helpers, caches, fast paths, the generated protobuf builders, the statistics object): fresh sub-agents were given only the text of one property and a scratch worktree, and asked for a change that breaks the property, compiles, passes the unedited suite and needs something specific to manifest, with a demonstration test. Each kept change was confirmed here in a scratch worktree (demonstration passes on the clean tree, fails with the change, full suite passes with the change), then the checks were run against `/repo` with the change applied and reverted. The table is generated from the `meta.json` files; 'own check' says whether the check of the property the change was written against reports it (obligations shared between properties keep their home rule id).\n"]
+ "* **Independently seeded changes** (`/verif/seeded/<id>/`, nine rounds A/B, C/D, E/F, G/H, I/J, K/L, M/N, O/P and Q/R plus two short late rounds S and T with a 9–12-minute limit per agent — from the second round on the agents were told which ideas had been used already for their property, so later rounds reach for less obvious places: sibling helpers, caches, fast paths, the generated protobuf builders, the statistics object): fresh sub-agents were given only the text of one property and a scratch worktree, and asked for a change that breaks the property, compiles, passes the unedited suite and needs something specific to manifest, with a demonstration test. Each kept change was confirmed here in a scratch worktree (demonstration passes on the clean tree, fails with the change, full suite passes with the change), then the checks were run against `/repo` with the change applied and reverted. The table is generated from the `meta.json` files; 'own check' says whether the check of the property the change was written against reports it (obligations shared between properties keep their home rule id).\n"]
 mc = os.path.join(ROOT, "tools", "mutcov_summary.json")
 if os.path.exists(mc):
     m = json.load(open(mc))
